@@ -120,6 +120,9 @@ KERNELS = [
     dict(name="Tree_call", file="base/_tree.py", cls="Tree", func="__call__", params=[], ret="Int", self_tree=True,
          node_preds={"FunctionalNode": "isFunctional"}, node_attrs={"_n_args": "nodeArity", "_value": "valueOf"},
          star_call={"node._value": "applyFn"}, node_names=["node"]),
+    # ---- Tree._init_n_args: the recorded arity array is the nodes' own `_n_args`, position by position
+    dict(name="Tree_init_n_args", file="base/_tree.py", cls="Tree", func="_init_n_args", params=[], ret="Arr", self_tree=True,
+         node_attrs={"_n_args": "nodeArity"}, node_names=["node_i"]),
     # ---- Tree.__str__: the same stack machine with the formatter of a function symbol and the name of a terminal (strings are identifiers)
     dict(name="Tree_str", file="base/_tree.py", cls="Tree", func="__str__", params=[], ret="Int", self_tree=True,
          node_preds={"FunctionalNode": "isFunctional"}, node_attrs={"_n_args": "nodeArity", "_name": "nameOf"},
@@ -631,6 +634,12 @@ class Tr:
                 self.collect(st.body)
                 if st.orelse:
                     raise NotRecognised("for-else")
+            elif isinstance(st, ast.For) and self.enum_self_nodes(st) is not None:
+                for el in st.target.elts:
+                    self.setlocal(el.id, "Int")
+                self.collect(st.body)
+                if st.orelse:
+                    raise NotRecognised("for-else")
             elif isinstance(st, ast.For):
                 if not isinstance(st.target, ast.Name):
                     raise NotRecognised("for target")
@@ -860,6 +869,14 @@ class Tr:
         if isinstance(e, ast.Subscript) and isinstance(e.value, ast.Name) and self.params.get(e.value.id) == "Tree1" \
                 and isinstance(e.slice, ast.Constant) and e.slice.value == 0:
             return f"{self.id(e.value.id)}_0"
+        return None
+
+    def enum_self_nodes(self, st):
+        """`for i, x in enumerate(self._nodes)` of a Tree method -> the Lean array, else None"""
+        if isinstance(st.target, ast.Tuple) and len(st.target.elts) == 2 and all(isinstance(e_, ast.Name) for e_ in st.target.elts) \
+                and isinstance(st.iter, ast.Call) and isinstance(st.iter.func, ast.Name) and st.iter.func.id == "enumerate" and len(st.iter.args) == 1 \
+                and not st.iter.keywords and self.self_tree and ast.unparse(st.iter.args[0]) == "self._nodes":
+            return "self_nodes"
         return None
 
     @staticmethod
@@ -1643,6 +1660,13 @@ class Tr:
             a, b = (self.id(el.id) for el in st.target.elts)
             body = self.block(st.body, ind + 1)
             L.append(f"(Imp.forRange (0 : Int) (Imp.leni s.{ta}) (fun s => s.brk) (fun i s =>\n{pad}  let s := {{ s with {a} := Imp.geti s.{ta} i, {b} := Imp.geti s.{tb} i }}\n{body}) s)")
+            L.append("{ s with brk := false }")
+            return L
+        if isinstance(st, ast.For) and self.enum_self_nodes(st) is not None:
+            a = self.enum_self_nodes(st)
+            vi, vx = (self.id(el.id) for el in st.target.elts)
+            body = self.block(st.body, ind + 1)
+            L.append(f"(Imp.forRange (0 : Int) (Imp.leni {a}) (fun s => s.brk) (fun i s =>\n{pad}  let s := {{ s with {vi} := i, {vx} := Imp.geti {a} i }}\n{body}) s)")
             L.append("{ s with brk := false }")
             return L
         if isinstance(st, ast.For):
